@@ -41,6 +41,15 @@ Fixpoint snap_eqb (a b : snap) : bool :=
   | _, _ => false
   end.
 
+(* value-only view: the identities of nested containers erased *)
+Fixpoint strip (a : snap) : snap :=
+  match a with
+  | SRef _ => SRef 0
+  | SCons h t => SCons (strip h) (strip t)
+  | STag g b => STag g (strip b)
+  | x => x
+  end.
+
 (* ------------------------------------------------------------------------------------------ stores *)
 Record entry : Type := E { ename : string; eoid : Z; esnap : snap; ememo : list (string * snap) }.
 Definition store := list entry.
@@ -48,6 +57,9 @@ Definition store := list entry.
 (* what is compared for "the object is unchanged" *)
 Definition core (e : entry) : string * Z * snap := (ename e, eoid e, esnap e).
 Definition cores (s : store) := map core s.
+(* the same up to the identities of the object's private containers *)
+Definition vcore (e : entry) : string * Z * snap := (ename e, eoid e, strip (esnap e)).
+Definition vcores (s : store) := map vcore s.
 
 Fixpoint lookup (n : string) (s : store) : option entry :=
   match s with
@@ -81,7 +93,8 @@ Record call : Type := Call { cop : string; cargs : list arg; cbind : option stri
 Inductive kind : Type :=
 | Pure                          (* must leave every object of the store unchanged *)
 | Mutator (recv : nat)          (* may change the object passed as argument number recv, nothing else *)
-| MutatorAtomic (recv : nat).   (* as Mutator, and when the call raises nothing at all changes *)
+| MutatorAtomic (recv : nat).   (* as Mutator, and when the call raises the receiver keeps its value (its private
+                                   containers may have been replaced by equal copies) *)
 
 (* Every operation the property lists, by family, and the genuine in-place operations of the library. *)
 Definition op_table : list (string * kind) :=
@@ -119,8 +132,14 @@ Definition op_table : list (string * kind) :=
     ("wf_str", Pure); ("wf_save", Pure); ("wf_flip", Pure); ("wf_sample", Pure); ("wf_getitem", Pure);
     ("wf_free_symbols", Pure); ("wf_len", Pure);
   (* genuine in-place operations *)
-    ("wf_setitem", MutatorAtomic 0);        (* wf[i] = v : restores the old value when normalisation is violated *)
-    ("meas_add_counts", Mutator 0);         (* Measurements.add_counts extends the stored list *)
+    ("wf_setitem", MutatorAtomic 0);        (* wf[i] = v, wf[a:b] = [numbers]: a rejected assignment puts a saved copy of
+                                               the whole amplitude vector back *)
+    ("wf_setitem_seq", MutatorAtomic 0);    (* wf[int] = [v, ...]: on a sympy-backed wavefunction the list spills over the
+                                               following entries; rejected assignments are rolled back (finding F29, fixed) *)
+    ("wf_setitem_symseq", Mutator 0);       (* wf[a:b] = [number, symbol] on a numpy-backed wavefunction: numpy raises after
+                                               storing the leading numbers, outside the roll-back (finding F27 of C12,
+                                               known) - the model records what the code does: not atomic *)
+    ("meas_add_counts", Mutator 0);        (* Measurements.add_counts extends the stored list *)
     ("ev_to_real", Mutator 0);              (* expectation_values_to_real rewrites and returns its argument *)
     ("dict_normalize", Mutator 0) ].        (* normalize_measurement_outcome_distribution rescales the dict it is given *)
 
@@ -156,17 +175,20 @@ Definition may_change (allowed : option Z) (e : entry) : bool :=
 
 Definition entry_kept (e e' : entry) : bool :=
   snap_eqb (esnap e) (esnap e') && memo_mono (ememo e) (ememo e').
+Definition value_kept (e e' : entry) : bool :=
+  snap_eqb (strip (esnap e)) (strip (esnap e')).
 
 (* the recorded post-store lists the same names with the same identities in the same order; every object
-   outside the allowed identity has an identical snapshot; at most one new name, and only if the call binds it *)
-Fixpoint frame_ok (allowed : option Z) (bind : option string) (pre post : store) : bool :=
+   outside the allowed identity has an identical snapshot; objects with the allowed identity are free, or, when
+   [soft] is set, must keep their value; at most one new name, and only if the call binds it *)
+Fixpoint frame_ok (allowed : option Z) (soft : bool) (bind : option string) (pre post : store) : bool :=
   match pre, post with
   | [], [] => true
   | [], [e'] => match bind with Some n => String.eqb n (ename e') | None => false end
   | e :: pre', e' :: post' =>
       String.eqb (ename e) (ename e') && Z.eqb (eoid e) (eoid e')
-      && (may_change allowed e || entry_kept e e')
-      && frame_ok allowed bind pre' post'
+      && (if may_change allowed e then negb soft || value_kept e e' else entry_kept e e')
+      && frame_ok allowed soft bind pre' post'
   | _, _ => false
   end.
 
@@ -178,15 +200,15 @@ Definition step_ok (pre : store) (st : step) : bool :=
       forallb (arg_ok pre) (cargs c)
       && names_fresh (spost st)
       && match k with
-         | Pure => frame_ok None (cbind c) pre (spost st)
+         | Pure => frame_ok None false (cbind c) pre (spost st)
          | Mutator i =>
              match recv_oid pre (cargs c) i with
-             | Some o => frame_ok (Some o) (cbind c) pre (spost st)
+             | Some o => frame_ok (Some o) false (cbind c) pre (spost st)
              | None => false
              end
          | MutatorAtomic i =>
              match recv_oid pre (cargs c) i with
-             | Some o => frame_ok (if sraised st then None else Some o) (cbind c) pre (spost st)
+             | Some o => frame_ok (Some o) (sraised st) (cbind c) pre (spost st)
              | None => false
              end
          end
